@@ -150,3 +150,32 @@ TAGMAP_IN = Contract(
     note='`key in map` holds exactly when map[key] returns (agrees with TagMap.__getitem__#raises)')
 
 CONTRACTS = [IMPLICIT, EXPLICIT, SUPER, TAGMAP_GET, TAGMAP_IN]
+
+
+# ---- Any.tagMap: only the untagged ANY stands for "whatever comes" ---------------------------------------------------------
+def _tagmap_ctor(ex, presentTypes=None, skipTypes=None, defaultType=None):
+    return Obj('TagMap', {'presentTypes': presentTypes, 'skipTypes': skipTypes, 'defaultType': defaultType}, name='TagMap(..)')
+
+
+def _any_obj(ex, env):
+    def getattr_(ex2, self, attr):
+        if attr == '_tagMap':
+            from pyvc.core import _Raise, ExcV
+            raise _Raise(ExcV('AttributeError'))       # not computed yet
+        raise Unsupported('attribute %s' % attr)
+    ts = Obj('TagSet', {'__truthy__': z3.Bool('any.isTagged')}, name='self.tagSet')
+    return Obj('Any', {'tagSet': ts}, {'__getattr__': getattr_}, name='self')
+
+
+ANY_TAGMAP = Contract(
+    id='type.univ::Any.tagMap', file='pyasn1/type/univ.py', qual='Any.tagMap', prop='getter', properties=['C13', 'C01', 'C18'],
+    params=dict(self=PDerived(_any_obj)),
+    globals={'tagmap': {'TagMap': FnV(_tagmap_ctor, 'tagmap.TagMap'), '__name__': 'tagmap'},
+             'eoo': {'endOfOctets': Obj('EndOfOctets', {'tagSet': Obj('TagSet', {}, name='eoo.tagSet')}, name='endOfOctets'),
+                     '__name__': 'eoo'},
+             'isTagged': z3.Bool('any.isTagged')},
+    ensures=[('tagged-any-is-found-by-its-tag-only', 'isTagged ==> result.defaultType is None'),
+             ('untagged-any-is-the-default-type', '(not isTagged) ==> result.defaultType is self'),
+             ('memoised', 'self._tagMap is result')],
+    note='a tagged ANY as default type made records and CHOICEs attribute other members\' encodings to it (fix 3be0109)')
+CONTRACTS = CONTRACTS + [ANY_TAGMAP]
